@@ -146,3 +146,33 @@ theorem c13_kid_not_hashed (P : Prims) (K : KeyEnv) (k k' : Key) (h : ensureKid 
 theorem c13_kid_not_a_field : ∀ kty ∈ Generated.keyTypes, "kid" ∉ thumbprintFields Generated.keyEnv kty := by decide
 
 end Jose.C13
+
+namespace Jose.C13
+
+/-- **Key sets keep kids**: building a key set calls `ensure_kid` on every member and does nothing else — the members stay
+in order, a kid that is present (whatever it is, shared with other members or not) is untouched, an absent one becomes the
+member's own RFC 7638 thumbprint. -/
+theorem c13_keyset_kids (P : Prims) (K : KeyEnv) (ks ks' : List Key) (h : keySetInit P K ks = .ok ks') :
+    ks'.length = ks.length ∧
+    ∀ i (hi : i < ks.length) (hi' : i < ks'.length),
+      (ks[i].dict.contains "kid" = true → ks'[i] = ks[i]) ∧
+      (ks[i].dict.contains "kid" = false → ∃ t, thumbprint P K ks[i] = .ok t ∧ ks'[i].dict.get? "kid" = some (.str t)) := by
+  unfold keySetInit at h
+  induction ks generalizing ks' with
+  | nil =>
+    simp only [List.mapM_nil, pure_eq_ok] at h
+    subst h
+    exact ⟨rfl, fun i hi => absurd hi (by simp)⟩
+  | cons k rest ih =>
+    simp only [List.mapM_cons, bind_eq_ok, pure_eq_ok] at h
+    obtain ⟨k', hk, rest', hrest, rfl⟩ := h
+    obtain ⟨hlen, hall⟩ := ih rest' hrest
+    refine ⟨by simp [hlen], ?_⟩
+    intro i hi hi'
+    cases i with
+    | zero => simpa using c13_kid P K k k' hk
+    | succ j =>
+      simp only [List.getElem_cons_succ]
+      exact hall j (by simpa using hi) (by simpa using hi')
+
+end Jose.C13
